@@ -45,6 +45,72 @@ func expansionCluster(p *Prog) ([]*ssa.Function, *ssa.Function) {
 	return out, root
 }
 
+// noNodeLeaves: neither f nor anything it calls in the module returns, stores or appends a value whose
+// type contains nodes.
+func noNodeLeaves(p *Prog, f *ssa.Function, node *types.Named, seen map[*ssa.Function]bool) bool {
+	if seen[f] {
+		return true
+	}
+	seen[f] = true
+	res := f.Signature.Results()
+	for i := 0; i < res.Len(); i++ {
+		if containsNodes(res.At(i).Type(), node) {
+			return false
+		}
+	}
+	for _, b := range f.Blocks {
+		for _, in := range b.Instrs {
+			switch t := in.(type) {
+			case *ssa.Store:
+				if containsNodes(t.Val.Type(), node) {
+					if al, ok := t.Addr.(*ssa.Alloc); ok && !al.Heap {
+						continue
+					}
+					return false
+				}
+			case *ssa.MapUpdate:
+				if containsNodes(t.Value.Type(), node) || containsNodes(t.Key.Type(), node) {
+					return false
+				}
+			case *ssa.Send, *ssa.Go, *ssa.Defer:
+				return false
+			case ssa.CallInstruction:
+				com := t.Common()
+				if bi, ok := com.Value.(*ssa.Builtin); ok {
+					if bi.Name() == "append" || bi.Name() == "copy" {
+						if v, ok := in.(ssa.Value); ok && containsNodes(v.Type(), node) {
+							return false
+						}
+						if bi.Name() == "copy" && containsNodes(com.Args[0].Type(), node) {
+							return false
+						}
+					}
+					continue
+				}
+				c := com.StaticCallee()
+				if c == nil {
+					for _, a := range com.Args {
+						if containsNodes(a.Type(), node) {
+							return false
+						}
+					}
+					continue
+				}
+				if p.InModule(c) {
+					if !noNodeLeaves(p, c, node, seen) {
+						return false
+					}
+					continue
+				}
+				if si := classifyStd(c); si.Class == stdMutatesArg {
+					return false
+				}
+			}
+		}
+	}
+	return true
+}
+
 func nodeType(p *Prog) *types.Named {
 	if o := p.ExpPkg.Types.Scope().Lookup("node"); o != nil {
 		if n, ok := o.Type().(*types.Named); ok {
@@ -423,6 +489,13 @@ func rulesExpansion(p *Prog, r *Report, eng *Engine) {
 	for _, f := range cluster {
 		// comparators passed to sort.Slice get their indices from the sort contract
 		if f.Parent() != nil {
+			continue
+		}
+		// a function from which no node can get out (no node-typed result, store or append, transitively)
+		// only answers questions about the lists — a comparator extracted into a named function, a
+		// predicate: whatever it selects by position cannot be lost from the expansion
+		if noNodeLeaves(p, f, node, map[*ssa.Function]bool{}) {
+			r.OK("X2", p.shortKey(f)+"|comparator", p.pos(f.Pos()), "no node leaves this function", "", false)
 			continue
 		}
 		for _, b := range f.Blocks {
